@@ -222,9 +222,61 @@ def r4_fsm_advances_after_the_await(chk):
         r.require(cfg, 8, "REQ/REP state stores")
 
 
+HANDOFF = re.compile(r"ISocketConnection::(send_multipart|send_multipart_owned|send_message|try_send_multipart_owned_sync)$")
+
+
+def r5_one_handoff_per_message(chk):
+    r = chk.rule("R5", "one logical message is handed to a connection in one operation", "T4 path census",
+                 "in every ISocket::send / send_multipart no path hands frames to the same connection twice (two awaited pushes of parts of one message): "
+                 "a send cancelled, timed out or refused between the two leaves the first part queued alone and it is delivered glued to the next message")
+    for cfg, prog in chk.configs():
+        n = 0
+        for body in prog.bodies.values():
+            if body.impl_trait != "socket::ISocket" or body.name not in ("send", "send_multipart") or not body.kind.startswith("coroutine") or "::tests" in body.path:
+                continue
+            hs = [c for c in body.calls if HANDOFF.search(c.declared) or HANDOFF.search(c.callee)]
+            if not hs:
+                continue
+            n += 1
+            by_recv = {}
+            for c in hs:
+                by_recv.setdefault(body.provenance(c.args[0]) if c.args else "?", []).append(c)
+            key = "%s|one hand-off per message" % short(body.root)
+            bad = None
+            for rp, cs in by_recv.items():
+                for c1 in cs:
+                    if c1.target is None:
+                        continue
+                    reach = body.reachable([c1.target])
+                    loops1 = set(h for h, _ in body.loops_containing(c1.blk))
+                    for c2 in cs:
+                        if c2.blk not in reach:
+                            continue
+                        if c2 is c1 and not loops1:
+                            continue
+                        if c2 is c1:
+                            # the same call again through a loop: a loop over peers re-binds the receiver; a loop over the frames of one message does not
+                            if any(x in blocks for h, blocks in body.loops_containing(c1.blk) for x in body.def_blocks(c1.args[0]["p"]["l"]) if c1.args and c1.args[0]["c"] in ("copy", "move")):
+                                continue
+                        bad = (c1, c2, rp)
+                        break
+                    if bad:
+                        break
+                if bad:
+                    break
+            if bad:
+                c1, c2, rp = bad
+                r.bad(cfg, key, where(body, c2.blk), "after %s (%s) the same path hands more frames to the same connection `%s` with %s (%s): the message reaches the peer's pipe in pieces, and a cancellation / timeout / full pipe between the pieces leaves a fragment that is later delivered as the head of another message" % (
+                    c1.name, c1.sp.split("/")[-1], rp[-60:], c2.name, c2.sp.split("/")[-1]))
+            else:
+                r.ok(cfg, key, where(body, hs[0].blk), "%d hand-off site(s), at most one per path and connection" % len(hs))
+        r.require(cfg, 3, "send paths that hand frames to a connection themselves")
+
+
 def run(chk):
     chk.undecided = ["the effect of dropping a future at each Pending poll (dynamic enumeration of poll points)", "interaction of cancellation with peer traffic"]
     r1_take_then_await(chk)
     r2_reservation_raii(chk)
     r3_no_lone_more_frame(chk)
     r4_fsm_advances_after_the_await(chk)
+    r5_one_handoff_per_message(chk)
